@@ -40,13 +40,19 @@ def explore(tier, seed_, years=scenarios.YEARS, per_year=None, replays=True, sna
                             named.append(fname)
                 if named:
                     variants.append(("file-named", None, request + sorted(named)))
+                variants.append(("file-typed", None, request))
                 for label, chooser, req in variants:
                     tid += 1
                     # the answers as the solve command writes them back (InputStore.write), re-read from that FILE
                     wdir = common.mkwork("hv_wb_")
                     conf = os.path.join(wdir, "written_back.habutax")
                     open(conf, "w").close()          # the command writes back into the (existing) input file
-                    solver._i.write(conf)
+                    if label == "file-typed":
+                        # the answers exactly as they were typed, put into a file by hand
+                        with open(conf, "w") as fh:
+                            runs.make_config({k2: v.replace("%", "%%") for k2, v in ans.given.items()}).write(fh)
+                    else:
+                        solver._i.write(conf)
                     import habutax.forms as F
                     try:
                         t2, r2, _s = runs.run_traced(F.available_forms[year], conf, req, (), user=None, chooser=chooser, mode="real",
@@ -214,6 +220,47 @@ def cli_report_check(scs, rep, cov, tier):
     cov["cli_reports_checked"] = len(obs)
 
 
+def cli_request_check(scs, rep, cov, tier):
+    """C04 at the command line: `habutax solve --form F ...` (through the argument parser) writes the solution of exactly the
+    requested forms -- the same lines as a solve of that request in the library."""
+    import cli_driver
+    import habutax.forms as F
+    n = 0
+    work = common.mkwork()
+    try:
+        for sc in [s for s in scs if not s["res"]["abort"]][: (4 if tier == "quick" else 40)]:
+            payer = sorted(k.split(".")[0] for k in sc["given"] if k.startswith("w-2:"))[:1]
+            for request in ([payer[0]] if payer else []), list(sc["request"]):
+                if not request:
+                    continue
+                path = os.path.join(work, "in_%d.habutax" % n)
+                conf = runs.make_config({k2: v.replace("%", "%%") for k2, v in sc["given"].items()})
+                with open(path, "w") as f:
+                    conf.write(f)
+                sol = os.path.join(work, "sol_%d" % n)
+                argv = ["solve", "--year", str(sc["year"])] + [x for r in request for x in ("--form", r)] + ["--solution", sol, path]
+                r = cli_driver.run_main(argv)
+                n += 1
+                _t, res2, _s = runs.run_traced(F.available_forms[sc["year"]], runs.make_config({k2: v.replace("%", "%%") for k2, v in sc["given"].items()}),
+                                               request, (), user=None, mode="real", snap="none", max_events=30000)
+                if res2["abort"]:
+                    if not r["exc"]:
+                        rep.violation("cli-request:%d:the command ends normally where the library solve aborts" % sc["year"], str(request),
+                                      {"kind": "scenario", "year": sc["year"], "request": request, "given": sc["given"]})
+                    continue
+                ok, got = cli_driver.file_map(sol) if os.path.exists(sol) else (False, {})
+                got = {k2: v for k2, v in got.items() if not k2.startswith("habutax.")}
+                want = set(res2["values"])
+                if r["exc"] or not ok or set(got) != want:
+                    extra, missing = sorted(set(got) - want)[:5], sorted(want - set(got))[:5]
+                    rep.violation("cli-request:%d:the command's solution is not that of the requested forms" % sc["year"],
+                                  "request %s: exception %r, lines only in the command's solution %s, lines missing from it %s" % (request, r["exc"], extra, missing),
+                                  {"kind": "scenario", "year": sc["year"], "request": request, "given": sc["given"]})
+    finally:
+        common.rmwork(work)
+    cov["cli_requests_through_the_argument_parser"] = n
+
+
 def run(pid, tier, rep, cov, owner_of):
     sd = common.seed()
     work = common.mkwork()
@@ -265,6 +312,8 @@ def run(pid, tier, rep, cov, owner_of):
                                           {"kind": "real-run-pair", "year": sc["year"], "given": sc["given"]})
         if pid == "C01":
             cli_report_check(scs, rep, cov, tier)
+        if pid == "C04":
+            cli_request_check(scs, rep, cov, tier)
         cov["real_form_traces_validated"] = len(traces) - len(rt["traces"])
         cov["repo_test_traces_validated"] = len(rt["traces"])
         cov["real_trace_events"] = sum(len(t["events"]) for t in traces)
